@@ -213,7 +213,8 @@ def check_property(prop, tier, jobs, use_cache=True):
 
     # ---- evidence
     all_deductive_ok = (n_ok == n_obl and n_obl > 0)
-    level = 'proof' if (all_deductive_ok and not known_lines and not undecided) else 'other'
+    claimed = getattr(reg, 'CLAIMS', {}).get(prop, {}).get('level', 'proof')
+    level = claimed if (all_deductive_ok and not known_lines and not undecided) else 'other'
     samples = []
     for o in list(obligations.values())[:12]:
         samples.append({'obligation': o['name'], 'paths': o['paths'], 'kind': o['kind'],
